@@ -77,6 +77,9 @@ def check_case(case):
         _, cc, ff = sut.S(q, z, prof, dom, lv, srf_bg_conc=c, **kw)
         return sut.as3d(cc).astype(float), sut.as3d(ff).astype(float)
 
+    # a solve of another request first (same grid, full spectrum, other source): the operator is a function of its
+    # arguments, so nothing of it may show in what follows - it makes a leak from an earlier call reproducible per case
+    sut.S(q2 + 1.0, z, prof, dom, lv, srf_bg_conc=7.0, **dict(kw, modes=(512, 512)))
     f1s, c1s = tol.natural_scales(q1, z, prof, c1)
     f2s, c2s = tol.natural_scales(q2, z, prof, c2)
     C1, F1 = run(q1, c1)
